@@ -6,6 +6,7 @@ MENUS = {
         ('types', ['tA', 'tB', 'tM', 'tAB', 'tA2', 'tApB', 'tBi', 'tMpA', 'tA1', 'tA2_dup2', 'tA_dupsym'], 6),
         ('units', ['tA', 'tB', 'tAB', 'tA2', 'ka', 'ha', 'cb', 'kab', 'ka2', 'kacb', 'sq', 'aa'], 7),
         ('terms3', ['tA', 'tB', 'ka', 'cb', 'kbc', 'kbc2', 'ha'], 7),
+        ('quantized', ['tD', 'kd', 'td', 'hd', 'tA', 'ka'], 6),
         ('dupsym', ['tA', 'tB', 'tA2', 'ka', 'cb', 'ka_dupB', 'a_dup', 'empty', 'nonstr', 'xb_wrongtype', 'ka2', 'bad_dim'], 6),
         ('noref', ['tA', 'tM', 'tMpA', 'p', 'q', 'ka', 'ppa', 'ppka', 'qpa', 'p_dup'], 7),
     ],
@@ -13,6 +14,7 @@ MENUS = {
         ('types', ['tA', 'tB', 'tM', 'tAB', 'tA2', 'tApB', 'tBi', 'tMpA', 'tA1', 'tA2_dup2', 'tA2_dup', 'tA_dupsym'], 7),
         ('units', ['tA', 'tB', 'tAB', 'tA2', 'ka', 'ha', 'ta', 'cb', 'kab', 'ka2', 'kacb', 'sq', 'aa', 'bad_dim'], 8),
         ('terms3', ['tA', 'tB', 'ka', 'cb', 'kbc', 'kbc2', 'ha', 'ta'], 8),
+        ('quantized', ['tD', 'kd', 'td', 'hd', 'tA', 'ka', 'tM', 'p'], 8),
         ('noref', ['tA', 'tM', 'tMpA', 'p', 'q', 'ka', 'ha', 'ppa', 'ppka', 'qpa', 'p_dup'], 8),
     ]}
 
@@ -24,7 +26,7 @@ def run(ctx):
                 'reference unit / listing per type / type of Quantity(amount, unit) and Quantity("1 sym") compared '
                 'with the successor state.  distinct_nontrivial = executed transitions.')
     ctx.assumptions = ['types are identified by name in the specification (a name is declared at most once)',
-                       'no quantized types in the Units menus']
+                       'one quantized base type in the Units menus (scaled units only)']
     for name, menu, depth in MENUS[ctx.tier]:
         unitscheck.run_menu(ctx, name, menu, depth)
 
